@@ -35,8 +35,16 @@ class Rational(primitives.Expression):
         # a unit divides everything: exact division, no detour through floats
         numerator //= d_unit
         denominator //= d_unit
-        self.Numerator = numerator
-        self.Denominator = denominator
+        object.__setattr__(self, "Numerator", numerator)
+        object.__setattr__(self, "Denominator", denominator)
+
+    if __debug__:
+        # immutable, like the dataclass-based expression nodes
+        def __setattr__(self, name, value):
+            raise AttributeError(f"cannot assign to field '{name}'")
+
+        def __delattr__(self, name):
+            raise AttributeError(f"cannot delete field '{name}'")
 
     def _num(self):
         return self.Numerator
